@@ -40,7 +40,8 @@ TInvertAsBuilt == /\ "inverse_divides_by_norm" \in Deviations
 
 TDerive   == IsEvent("Derive") /\ Derive(Ev.route) /\ Logged
 TNormalize == IsEvent("Normalize") /\ Normalize /\ Logged
-TraceNext == TDerive \/ TNormalize \/ TMulRight \/ TMulLeft \/ TConj \/ TInvert \/ TInvertAsBuilt \/ TRestore \/ TObserve
+TOverwrite == IsEvent("Overwrite") /\ Overwrite(Tup4(Ev.v)) /\ Logged
+TraceNext == TOverwrite \/ TDerive \/ TNormalize \/ TMulRight \/ TMulLeft \/ TConj \/ TInvert \/ TInvertAsBuilt \/ TRestore \/ TObserve
 TraceSpec == TraceInit /\ [][TraceNext]_tvars
 (* a state that violates an invariant is pruned and does not count as progress (an INVARIANT in the cfg would stop
    the whole batch at the first violation; priming the invariants into the actions is an order of magnitude slower) *)
